@@ -42,6 +42,10 @@ theorem new_eq (p : Nat) :
 theorem fresh_wf (p : Nat) (hp : 0 < p) (h8 : p * 8 ≤ isizeMax) : WF (fresh p : MoneyFlowIndex F) :=
   ⟨hp, h8, by simp [fresh], hp, by simp [fresh]⟩
 
+private theorem ite_pair {α β : Type} (c : Prop) [Decidable c] (a : α) (b b' : β) :
+    (if c then (a, b) else (a, b')) = (a, if c then b else b') := by
+  split <;> rfl
+
 /-- `nextBar` never panics on a well-formed state, keeps it well-formed and keeps the period -/
 theorem nextBar_total (s : MoneyFlowIndex F) (b : Bar F) (h : WF s) :
     ∃ r, s.nextBar b = some r ∧ WF r.1 ∧ r.1.period_fn = s.period_fn := by
@@ -71,14 +75,102 @@ theorem nextBar_total (s : MoneyFlowIndex F) (b : Bar F) (h : WF s) :
     · simp only [c3, decide_false, if_false, Bool.false_eq_true]
       by_cases c4 : Scalar.lt s.previous_typical_price tp = true <;>
       by_cases c5 : Scalar.lt tp s.previous_typical_price = true <;>
-        simp only [c4, c5, if_true, if_false, Option.bind_some, Bool.false_eq_true] <;>
+        simp only [c4, c5, if_true, if_false, Option.bind_some, Bool.false_eq_true, ite_pair] <;>
         exact ⟨_, rfl, ⟨hp, hs, by simpa using hsz, hj, by dsimp only; omega⟩, rfl⟩
   · simp only [c2, decide_false, if_false, Bool.false_eq_true]
     by_cases c6 : Scalar.isSignPositive v = true <;>
     by_cases c4 : Scalar.lt s.previous_typical_price tp = true <;>
     by_cases c5 : Scalar.lt tp s.previous_typical_price = true <;>
-      simp only [c6, c4, c5, hset, if_true, if_false, Option.bind_some, Bool.false_eq_true] <;>
+      simp only [c6, c4, c5, hset, if_true, if_false, Option.bind_some, Bool.false_eq_true, ite_pair] <;>
       exact ⟨_, rfl, ⟨hp, hs, by simpa using hsz, hj, hc⟩, rfl⟩
+
+/-- The zero-total-flow guard (no well-formedness needed): whenever `nextBar` returns, the
+    output is either the literal `50` or the ratio formula evaluated on the NEW totals, and the
+    latter (the division) is only reached when the denominator tested `!= 0`. -/
+theorem nextBar_guard (s s' : MoneyFlowIndex F) (b : Bar F) (y : F)
+    (h : s.nextBar b = some (s', y)) :
+    y = Scalar.lit 50 0 ∨
+      (Scalar.beq (Scalar.add s'.total_positive_money_flow s'.total_negative_money_flow)
+          (Scalar.lit 0 0) = false ∧
+        y = Scalar.mul (Scalar.div s'.total_positive_money_flow
+              (Scalar.add s'.total_positive_money_flow s'.total_negative_money_flow))
+            (Scalar.lit 100 0)) := by
+  unfold nextBar at h
+  generalize Scalar.div (Scalar.add (Scalar.add b.close b.high) b.low) (Scalar.lit 3 0 : F) = tp at h
+  have hite : ∀ (c : Prop) [Decidable c] (a b : Nat),
+      (if c then (some a : Option Nat) else some b) = some (if c then a else b) := by
+    intro c _ a b; split <;> rfl
+  cases hu : uadd s.index 1 with
+  | none => simp [hu] at h
+  | some i1 =>
+    simp only [hu, Option.bind_eq_bind, Option.bind_some, Option.pure_def, hite] at h
+    generalize (if decide (i1 < s.period) = true then i1 else 0) = j at h
+    -- every leaf: `h : some (st, if c then 50 else ratio) = some (s', y)` or `h : none = some _`
+    have leaf : ∀ (st : MoneyFlowIndex F),
+        some (st, if Scalar.beq (Scalar.add st.total_positive_money_flow st.total_negative_money_flow)
+                      (Scalar.lit 0 0) = true then (Scalar.lit 50 0 : F)
+                  else Scalar.mul (Scalar.div st.total_positive_money_flow
+                        (Scalar.add st.total_positive_money_flow st.total_negative_money_flow))
+                      (Scalar.lit 100 0)) = some (s', y) →
+        y = Scalar.lit 50 0 ∨
+          (Scalar.beq (Scalar.add s'.total_positive_money_flow s'.total_negative_money_flow)
+              (Scalar.lit 0 0) = false ∧
+            y = Scalar.mul (Scalar.div s'.total_positive_money_flow
+                  (Scalar.add s'.total_positive_money_flow s'.total_negative_money_flow))
+                (Scalar.lit 100 0)) := by
+      intro st hst
+      obtain ⟨rfl, rfl⟩ := Prod.mk.inj (Option.some.inj hst)
+      by_cases c : Scalar.beq (Scalar.add st.total_positive_money_flow st.total_negative_money_flow)
+          (Scalar.lit 0 0) = true
+      · left; simp [c]
+      · right; simp [c]
+    have hset : ∀ w, setIndex s.deque j w =
+        if j < s.deque.size then some (s.deque.setIfInBounds j w) else none := fun w => rfl
+    by_cases hjs : j < s.deque.size
+    · simp only [hset, hjs, if_true, Option.bind_some] at h
+      by_cases c2 : s.count < s.period
+      · simp only [c2, decide_true, if_true] at h
+        cases hu2 : uadd s.count 1 with
+        | none => simp [hu2] at h
+        | some c' =>
+          simp only [hu2, Option.bind_some] at h
+          by_cases c3 : c' = 1
+          · simp only [c3, decide_true, if_true] at h
+            left; exact (Prod.mk.inj (Option.some.inj h)).2.symm
+          · simp only [c3, decide_false, if_false, Bool.false_eq_true] at h
+            by_cases c4 : Scalar.lt s.previous_typical_price tp = true <;>
+            by_cases c5 : Scalar.lt tp s.previous_typical_price = true <;>
+              simp only [c4, c5, if_true, if_false, Option.bind_some, Bool.false_eq_true,
+                ite_pair] at h <;>
+              exact leaf _ h
+      · simp only [c2, decide_false, if_false, Bool.false_eq_true] at h
+        cases hx : Rs.index s.deque j with
+        | none => simp [hx] at h
+        | some v =>
+          simp only [hx, Option.bind_some] at h
+          by_cases c6 : Scalar.isSignPositive v = true <;>
+          by_cases c4 : Scalar.lt s.previous_typical_price tp = true <;>
+          by_cases c5 : Scalar.lt tp s.previous_typical_price = true <;>
+            simp only [c6, c4, c5, hset, hjs, if_true, if_false, Option.bind_some,
+              Bool.false_eq_true, ite_pair] at h <;>
+            exact leaf _ h
+    · -- cursor out of bounds: only the very first bar (no deque access) can return
+      simp only [hset, hjs, if_false, Option.bind_none] at h
+      by_cases c2 : s.count < s.period
+      · simp only [c2, decide_true, if_true] at h
+        cases hu2 : uadd s.count 1 with
+        | none => simp [hu2] at h
+        | some c' =>
+          simp only [hu2, Option.bind_some] at h
+          by_cases c3 : c' = 1
+          · simp only [c3, decide_true, if_true] at h
+            left; exact (Prod.mk.inj (Option.some.inj h)).2.symm
+          · simp only [c3, decide_false, if_false, Bool.false_eq_true] at h
+            by_cases c4 : Scalar.lt s.previous_typical_price tp = true <;>
+            by_cases c5 : Scalar.lt tp s.previous_typical_price = true <;>
+              simp [c4, c5] at h
+      · have hx : Rs.index s.deque j = none := by simp [Rs.index]; omega
+        simp [c2, hx] at h
 
 /-- `reset` rebuilds exactly the state `new` builds (state equality: any history, any values) -/
 theorem reset_eq (s : MoneyFlowIndex F) (h : WF s) : s.reset = some (fresh s.period) := by
